@@ -276,6 +276,9 @@ Dist genDist(vf::Ctx& c, const vector<unsigned>& famWeights = FAM_ALL) {
     case 1: {
       double a = gridv(c), b = gridv(c), off = c.pick({0.5, -2.0, 3.0}); o << "Gamma(" << K << ",alpha=" << a << ",beta=" << b << ",offset=" << off << ")";
       r.d.reset(new GammaDiscreteDistribution(K, a, b, 0.05, 0.05, true, off)); r.nontrivial = true;
+      // the domain is ]offset,inf[: a variate smaller than half the spacing of the doubles at the offset gives offset + variate == offset, which
+      // cannot be returned (alpha=0.1, offset=0.5: 2.5% of the mass, Boost reference; the KS statistic sits at 3.5 +- noise from this alone)
+      r.representable = static_cast<double>(boost::math::gamma_p(static_cast<LD>(a), static_cast<LD>(b) * static_cast<LD>(nextafter(std::abs(off), INFINITY) - std::abs(off)))) <= 1e-4;
       if (b != 1) r.knownC = K_GAMMA; else if (off > 0) r.knownC = K_GAMOFF;
       break; }
     case 2: { double a = gridv(c), b = gridv(c); o << "Beta(" << K << ",alpha=" << a << ",beta=" << b << ")"; r.d.reset(new BetaDiscreteDistribution(K, a, b)); r.nontrivial = (a != 1 || b != 1);
@@ -496,7 +499,7 @@ bool genRestr(vf::Ctx& c, const DiscreteDistributionInterface& d, bool lowerOnly
 
 // Termination is part of this law (watchdog 3 CPU-seconds per case, a hang is a violation): the restricted domains hold >= 15% of
 // the mass (never < 5%), so 20 000 draws of the conditional law need about 10^5 variates of the parent law (0.1 s); a randC()
-// that has not delivered them after several 10^6 variates accepts a few per cent of what the law puts on the domain: it does not draw from it.
+// that has not delivered them after several 10^6 variates accepts far less than the law puts on the domain: it does not draw from it.
 LAW(D_randC_restricted, RC, 36, 180, 32, "the restricted domain holds at most 90% of the mass: first draws are rejected and re-drawn", 3, true) {
   static const vector<unsigned> FAM = {2, 6, 2, 2, 2, 2, 1, 0, 0};   // no Constant (one point), no Simple (no continuous version)
   uint32_t seed = genSeed(c); Dist D = genDist(c, FAM);
@@ -514,7 +517,10 @@ LAW(D_randC_restricted, RC, 36, 180, 32, "the restricted domain holds at most 90
   RT::setSeed(seed);
   vector<double> xs(NDRAW);
   for (auto& x : xs) { x = D.d->randC(); CHECK(x >= lo && x <= hi, D.text << " restricted to " << r.text << ": randC() = " << vf::dec(x) << " outside the domain [" << vf::dec(lo) << ";" << vf::dec(hi) << "]"); }
-  if (!D.representable && hi > 0.999) { c.label("law_not_representable_in_double_no_KS"); return; }
+  // reals of the domain within one double of a bound may round onto the bound or outside and are then re-drawn: no KS when they
+  // carry more than 1e-4 of the domain's mass (Gamma(alpha=0.1,offset=3) on ]3;3.0003]: 5%); Beta near 1 as in D_randC
+  double edge = std::max(D.d->pProb(nextafter(lo, INFINITY)) - Flo, Fhi - D.d->pProb(nextafter(hi, -INFINITY))) / (Fhi - Flo);
+  if (!(edge <= 1e-4) || (D.family == 2 && !D.representable && hi > 0.999)) { c.label("law_not_representable_in_double_no_KS"); return; }
   CHECK_KS(c, xs, [&](double x) { return x <= lo ? 0. : x >= hi ? 1. : (D.d->pProb(x) - Flo) / (Fhi - Flo); }, D.text << " restricted to " << r.text << ": randC() vs its own pProb renormalised to the domain [" << vf::dec(lo) << ";" << vf::dec(hi) << "]");
 }
 
